@@ -204,6 +204,7 @@ func TestC12_Ramp(t *testing.T) {
 			// recovery traffic
 			n := rapid.IntRange(5, 60).Draw(t, "recoverySteps")
 			failProb := rapid.SampledFrom([]int{0, 0, 0, 2, 5}).Draw(t, "failEvery")
+			aborts := rapid.IntRange(0, 3).Draw(t, "abortingBackend") == 0
 		recovery:
 			for i := 0; i < n; i++ {
 				switch rapid.IntRange(0, 7).Draw(t, "op") {
@@ -219,7 +220,14 @@ func TestC12_Ramp(t *testing.T) {
 						if failProb > 0 && rapid.IntRange(1, failProb).Draw(t, "fail") == 1 {
 							st = 502
 						}
-						finish(rapid.IntRange(0, len(d.InFlight)-1).Draw(t, "which"), st)
+						which := rapid.IntRange(0, len(d.InFlight)-1).Draw(t, "which")
+						if aborts && rapid.IntRange(0, 1).Draw(t, "abort") == 0 {
+							// the re-admitted request aborts: it still went to the protected handler
+							d.FinishPanic(which)
+							observe("finish")
+						} else {
+							finish(which, st)
+						}
 					}
 				case 4:
 					adv(rapid.Int64Range(1, ms(R)/10+1).Draw(t, "tick"))
